@@ -106,13 +106,68 @@ _PATTERN_POOL = ["a::b", "::x1::y_2", "ns::inner::deep", "a.b.c", "my.pkg_name.s
 _WORDS = ["out", "gen", "src", "include", "x1", "lib_a", "deep/dir", "a-b", "My Dir", "v=1", "p:q", "UPPER", "tmp.d", "_u_", "k__k"]
 
 
+# Edge texts for settings that are *free text* in the schema (type string without pattern / format / enumeration: prefixes,
+# file extensions, annotations, credentials, descriptions, …). Every one of them is a valid value there, and every source has to
+# deliver it verbatim: the empty text, blank text, texts that read as another scalar type (number, boolean, null) or as JSON,
+# and texts that contain the separators of the spellings ('=', '.', '__', '[', ']', ',', quotes, '#', ':').
+EDGE_TEXTS = ["", " ", "  x ", "\t", "null", "None", "~", "true", "False", "on", "0", "1", "-1", "1.5", "1e3", "0x10", "{}", "[]",
+              "{\"a\": 1}", "[1]", "[a,b]", "\"\"", "\"q\"", "''", "it's", "a=b", "=", "a.b", ".", "a__b", "__", "_", "[x", "x]", "a,b", ",",
+              "#c", "x #c", "a: b", "- a", "$HOME", "%d", "a\\nb", "é", "PyDjinni__x", "a\nb"]
+
+
+def is_free_text(node: dict) -> bool:
+    node = resolve(node)
+    return node.get("type") == "string" and not any(k in node for k in ("pattern", "format", "enum", "const"))
+
+
+def _alts(node: dict) -> list[dict]:
+    node = resolve(node)
+    return [resolve(a) for a in node.get("anyOf", [node])]
+
+
+def has_free_text(node: dict, depth=0) -> bool:
+    """is there a free-text setting at or below this schema node (a text, a list of texts, or a section that holds one)?"""
+    if depth > 8:
+        return False
+    for a in _alts(node):
+        if is_free_text(a):
+            return True
+        if a.get("type") == "array" and is_free_text(a.get("items", {})):
+            return True
+        if a.get("type") == "object" and any(has_free_text(s, depth + 1) for s in a.get("properties", {}).values()):
+            return True
+    return False
+
+
+def free_text_paths(node: dict | None = None, prefix=()) -> list[tuple]:
+    """paths of all free-text settings of the live schema (list-valued ones end in '[]')"""
+    node = schema() if node is None else node
+    out = []
+    for a in _alts(node):
+        if is_free_text(a):
+            out.append(prefix)
+        elif a.get("type") == "array" and is_free_text(a.get("items", {})):
+            out.append(prefix + ("[]",))
+        elif a.get("type") == "object" and len(prefix) < 8:
+            for k, s in a.get("properties", {}).items():
+                out += free_text_paths(s, prefix + (k,))
+    return sorted(set(out), key=out.index)
+
+
+def text_in_all_spellings(s: str) -> bool:
+    """does a text have a spelling in every source (file, `-o`, environment variable, `.env` line)?"""
+    return opt_text(s) is not None and "'" not in s and "\n" not in s and "\\" not in s and "\x00" not in s and "${" not in s
+
+
 class TreeGen:
     """type-directed generator of valid configuration values from the JSON schema"""
 
-    def __init__(self, rng, p_optional=0.35, plain=False):
+    def __init__(self, rng, p_optional=0.35, plain=False, p_edge=0.0, edge=None):
         self.r = rng
         self.p = p_optional
         self.plain = plain  # only text/bool/enum/list leaves that every spelling can express
+        self.p_edge = p_edge  # free-text settings take an edge text with this probability
+        self.edge = edge      # callable -> next edge text: then *every* free-text setting is present and takes one
 
     def text(self):
         w = self.r.choice(_WORDS[:8] if self.plain else _WORDS)
@@ -120,10 +175,20 @@ class TreeGen:
             w += self.r.choice(["", "2", "_b", "/sub"])
         return w
 
+    def free_text(self):
+        if self.edge is not None:
+            return self.edge()
+        if self.p_edge and self.r.random() < self.p_edge:
+            pool = [s for s in EDGE_TEXTS if text_in_all_spellings(s)] if self.plain else EDGE_TEXTS
+            return self.r.choice(pool)
+        return self.text()
+
     def value(self, node: dict, depth=0):
         node = resolve(node)
         if "anyOf" in node:
             alts = [a for a in node["anyOf"] if resolve(a).get("type") != "null"]
+            if self.edge is not None and any(has_free_text(a) for a in alts):
+                alts = [a for a in alts if has_free_text(a)]
             return self.value(self.r.choice(alts), depth)
         if "enum" in node:
             return self.r.choice(node["enum"])
@@ -136,6 +201,8 @@ class TreeGen:
             items = node.get("items", {"type": "string"})
             n = self.r.choice([1, 1, 2, 3])
             vals = [self.value(items, depth + 1) for _ in range(n)]
+            if self.plain:   # an element with a comma has no `-o` spelling
+                vals = [v.replace(",", ";") if isinstance(v, str) else v for v in vals]
             if node.get("uniqueItems"):
                 vals = sorted(set(vals), key=vals.index)
             return vals
@@ -151,7 +218,7 @@ class TreeGen:
                 return self.r.choice(ok) if ok else None
             if node.get("format") == "uri":
                 return "https://example.org/repo"
-            return self.text()
+            return self.free_text() if is_free_text(node) else self.text()
         return None
 
     def obj(self, node: dict, depth=0, force=()):
@@ -159,7 +226,7 @@ class TreeGen:
         out = {}
         req = set(node.get("required", []))
         for k, sub in node.get("properties", {}).items():
-            if k in req or k in force or self.r.random() < self.p / (1 + depth * 0.5):
+            if k in req or k in force or (self.edge is not None and has_free_text(sub)) or self.r.random() < self.p / (1 + depth * 0.5):
                 v = self.value(sub, depth + 1)
                 if v is None or v == {}:
                     if k in req:
@@ -193,6 +260,45 @@ class TreeGen:
         if not self.plain and self.r.random() < 0.2:
             d["package"] = self.obj(schema()["$defs"]["Package"], 1)
         return d
+
+
+def edge_units() -> list[tuple[tuple, dict]]:
+    """(path, schema node) of the units in which edge texts are exercised: every section below `generate` that holds a
+    free-text setting, and every other top-level section that does"""
+    out = []
+    for top, node in schema()["properties"].items():
+        if top == "generate":
+            for k, v in section_props("generate").items():
+                if has_free_text(v):
+                    out.append((("generate", k), v))
+        elif has_free_text(node):
+            out.append(((top,), node))
+    return out
+
+
+def edge_tree(rng, unit: tuple[tuple, dict], rotation: int, only: int | None = None) -> tuple[dict, list[tuple]]:
+    """a valid tree for one unit in which every free-text setting is present; the j-th one (document order) holds
+    EDGE_TEXTS[(j + rotation) mod K], so that K rotations put every edge text into every free-text setting.
+    `only`: just the j-th free-text setting takes an edge text (the others are ordinary words).
+    Returns (tree, paths of the leaves that hold an edge text)."""
+    counter = [0]
+    used = []
+    g = TreeGen(rng, p_optional=0.0)
+
+    def nxt():
+        j = counter[0]
+        counter[0] += 1
+        if only is not None and j != only:
+            return g.text()
+        v = EDGE_TEXTS[(j + rotation) % len(EDGE_TEXTS)]
+        used.append(v)
+        return v
+    g.edge = nxt
+    path, node = unit
+    val = g.value(node, len(path))
+    tree = from_leaves([(path, val)])
+    marked = [p for p, v in leaves(tree) if (v in used if isinstance(v, str) else isinstance(v, list) and any(x in used for x in v))]
+    return tree, marked
 
 
 def minimal_sections() -> dict:
@@ -286,13 +392,19 @@ def to_env(tree: dict, upper=False) -> dict | None:
     return out
 
 
+def dotenv_ok(v) -> bool:
+    """can the value be written as a single-quoted `.env` line? (no quote, line break, escape or `${…}` expansion)"""
+    t = env_text(v)
+    return t is not None and not any(x in t for x in ("'", "\n", "\\", "${", "\x00"))
+
+
 def to_dotenv(tree: dict) -> str | None:
     env = to_env(tree)
     if env is None:
         return None
     lines = []
     for k, v in env.items():
-        if "\n" in v or "'" in v:
+        if not dotenv_ok(v):
             return None
         lines.append(f"{k}='{v}'")
     return "\n".join(lines) + "\n"
